@@ -188,7 +188,9 @@ def EqClean (ust : Units.Store) (vt : VarTable) (cname : String) (e : Eqn String
 
 theorem checkEqs_ok {ust : Units.Store} {vt : VarTable} {st : CState} {cname : String} :
     ∀ (es : List (Eqn String String)) (d0 d : List VRef), checkEqs ust vt st cname es d0 = .ok d →
-      d = (es.map (lhsRoot st cname)).reverse ++ d0 ∧ (d0.Nodup → d.Nodup) ∧ ∀ e ∈ es, EqClean ust vt cname e
+      d = (es.map (lhsRoot st cname)).reverse ++ d0 ∧
+      ((es.map (lhsRoot st cname)).Nodup ∧ ∀ v ∈ es.map (lhsRoot st cname), v ∉ d0) ∧
+      ∀ e ∈ es, EqClean ust vt cname e
   | [], d0, d, h => by simp only [checkEqs, Except.ok.injEq] at h; subst h; simp
   | e :: es, d0, d, h => by
       unfold checkEqs at h
@@ -203,13 +205,18 @@ theorem checkEqs_ok {ust : Units.Store} {vt : VarTable} {st : CState} {cname : S
           · cases h
           · rename_i hnc
             rw [transcribe_defines] at hnc h
-            obtain ⟨ih1, ih2, ih3⟩ := checkEqs_ok es _ d h
-            refine ⟨?_, ?_, ?_⟩
+            have hnc' : lhsRoot st cname e ∉ d0 := by simpa using hnc
+            obtain ⟨ih1, ⟨ih2, ih2'⟩, ih3⟩ := checkEqs_ok es _ d h
+            refine ⟨?_, ⟨?_, ?_⟩, ?_⟩
             · rw [ih1]; simp
-            · intro hnd
-              apply ih2
-              simp only [List.nodup_cons]
-              exact ⟨by simpa using hnc, hnd⟩
+            · simp only [List.map_cons, List.nodup_cons]
+              refine ⟨fun hm => ?_, ih2⟩
+              exact ih2' _ hm List.mem_cons_self
+            · intro v hv
+              simp only [List.map_cons, List.mem_cons] at hv
+              rcases hv with rfl | hv
+              · exact hnc'
+              · exact fun hd => ih2' v hv (List.mem_cons_of_mem _ hd)
             · intro e' he'
               rcases List.mem_cons.mp he' with rfl | he'
               · obtain ⟨r1, r2⟩ := checkExpr_ok _ hr
@@ -225,17 +232,30 @@ def lhsRoots (st : CState) (cs : List Comp) : List VRef := cs.flatMap (fun c => 
 
 theorem checkMaths_ok {ust : Units.Store} {vt : VarTable} {st : CState} :
     ∀ (cs : List Comp) (d0 d : List VRef), checkMaths ust vt st cs d0 = .ok d →
-      d = (lhsRoots st cs).reverse ++ d0 ∧ (d0.Nodup → d.Nodup) ∧ ∀ c ∈ cs, ∀ e ∈ c.eqs, EqClean ust vt c.name e
+      d = (lhsRoots st cs).reverse ++ d0 ∧ ((lhsRoots st cs).Nodup ∧ ∀ v ∈ lhsRoots st cs, v ∉ d0) ∧
+      ∀ c ∈ cs, ∀ e ∈ c.eqs, EqClean ust vt c.name e
   | [], d0, d, h => by simp only [checkMaths, Except.ok.injEq] at h; subst h; simp [lhsRoots]
   | c :: cs, d0, d, h => by
       unfold checkMaths at h
       split at h
       · cases h
       · rename_i d1 h1
-        obtain ⟨a1, a2, a3⟩ := checkEqs_ok _ _ _ h1
-        obtain ⟨b1, b2, b3⟩ := checkMaths_ok cs d1 d h
-        refine ⟨?_, fun hnd => b2 (a2 hnd), ?_⟩
-        · rw [b1, a1]; simp [lhsRoots]
+        obtain ⟨a1, ⟨a2, a2'⟩, a3⟩ := checkEqs_ok _ _ _ h1
+        obtain ⟨b1, ⟨b2, b2'⟩, b3⟩ := checkMaths_ok cs d1 d h
+        have hsplit : lhsRoots st (c :: cs) = c.eqs.map (lhsRoot st c.name) ++ lhsRoots st cs := by
+          simp [lhsRoots]
+        refine ⟨?_, ⟨?_, ?_⟩, ?_⟩
+        · rw [b1, a1, hsplit]; simp
+        · rw [hsplit, List.nodup_append]
+          refine ⟨a2, b2, ?_⟩
+          intro x hx y hy hxy
+          subst hxy
+          exact b2' x hy (by rw [a1]; simp [hx])
+        · intro v hv
+          rw [hsplit, List.mem_append] at hv
+          rcases hv with hv | hv
+          · exact a2' v hv
+          · exact fun hd => b2' v hv (by rw [a1]; simp [hd])
         · intro c' hc'
           rcases List.mem_cons.mp hc' with rfl | hc'
           · exact a3
